@@ -19,5 +19,10 @@ OBLIGATIONS = [
      bound='2 fields of symbolic width/value after an arbitrary 1-field history (finished or abandoned)', covers='DirectBitEncoder::StartEncoding/Clear/EncodeLeastSignificantBits32/EndEncoding'),
   Ob('C06.bits_det', H, 'h_bits_det', tier='quick', unwind=20, max_alloc=16, defines={'DW1': 5, 'DW2': 12},
      bound='2 fields of widths 5 and 12, with/without size; second buffer has a history and different heap garbage', covers='EncoderBuffer::StartBitEncoding/EncodeLeastSignificantBits32/EndBitEncoding/Clear'),
+  Ob('C06.pred_dec_multi_det', 'C02/preddec.cc', 'h_multi_det', tier='quick', unwind=10, max_alloc=16, uf_int=True, defines={'NE': 2, 'NCOMP': 1},
+     bound='arbitrary in-range table (2 faces), 2 entries x 1 component, any corrections and wrap bounds; fresh heap blocks hold arbitrary bytes',
+     covers='MeshPredictionSchemeMultiParallelogramDecoder::ComputeOriginalValues run twice (self-composition): no dependence on uninitialised heap'),
+  Ob('C06.pred_dec_pgram_det', 'C02/preddec.cc', 'h_pgram_det', tier='quick', unwind=10, max_alloc=16, uf_int=True, defines={'NE': 3, 'NCOMP': 1},
+     bound='arbitrary in-range table, 3 entries x 1 component', covers='MeshPredictionSchemeParallelogramDecoder::ComputeOriginalValues run twice'),
 ]
 META = {}
